@@ -1,2 +1,1043 @@
-(* Proofs for C17. *)
-From WI Require Import Lib.Base Lib.Info Model.Uuid.
+(* Proofs for C17 (UUID decoding per RFC 9562).  Part 1: bit-field algebra; part 2: what UUIDValue
+   displays; part 3: textual forms and white space. *)
+From WI Require Import Lib.Base Lib.Info Lib.Utf8 Lib.Strings Lib.Time Model.Uuid Spec.C17.
+From Coq Require Import ZifyN ZifyNat ZifyBool.
+Open Scope N_scope.
+Ltac Zify.zify_post_hook ::= Z.to_euclidean_division_equations.
+
+(* ---------- big-endian numbers ---------- *)
+Lemma be_acc_app : forall l1 l2 a, be_to_N_acc a (l1 ++ l2) = be_to_N_acc (be_to_N_acc a l1) l2.
+Proof. induction l1; intros; cbn; auto. Qed.
+
+Lemma be_acc_shift : forall l a, be_to_N_acc a l = a * 256 ^ N.of_nat (length l) + be_to_N l.
+Proof.
+  unfold be_to_N. induction l; intros a0.
+  - cbn. lia.
+  - cbn [be_to_N_acc length]. rewrite IHl. rewrite (IHl (0 * 256 + a)).
+    rewrite Nat2N.inj_succ, N.pow_succ_r'. lia.
+Qed.
+
+Lemma be_app : forall l1 l2, be_to_N (l1 ++ l2) = be_to_N l1 * 256 ^ N.of_nat (length l2) + be_to_N l2.
+Proof. intros. unfold be_to_N at 1. rewrite be_acc_app, be_acc_shift. reflexivity. Qed.
+
+Lemma be_bound : forall l, bytes_ok l = true -> be_to_N l < 256 ^ N.of_nat (length l).
+Proof.
+  induction l; intros H.
+  - cbn. lia.
+  - cbn in H. apply andb_prop in H. destruct H as [Ha Hl]. unfold byte_ok in Ha.
+    change (a :: l) with ([a] ++ l). rewrite be_app. specialize (IHl Hl).
+    cbn [length app]. rewrite Nat2N.inj_succ, N.pow_succ_r'.
+    change (be_to_N [a]) with (0 * 256 + a). 
+    assert (a < 256) by lia. nia.
+Qed.
+
+Lemma bits_div n lo w : bits n lo w = (n / 2 ^ lo) mod 2 ^ w.
+Proof. unfold bits. rewrite N.land_ones, N.shiftr_div_pow2. reflexivity. Qed.
+
+Lemma pow256 k : 256 ^ k = 2 ^ (8 * k).
+Proof. change 256 with (2 ^ 8). rewrite <- N.pow_mul_r. reflexivity. Qed.
+
+(* the bytes m of a ++ m ++ c, read as a number, are the corresponding bit field *)
+Lemma bits_be : forall a m c, bytes_ok m = true -> bytes_ok c = true ->
+  bits (be_to_N (a ++ m ++ c)) (8 * N.of_nat (length c)) (8 * N.of_nat (length m)) = be_to_N m.
+Proof.
+  intros a m c Hm Hc. rewrite bits_div, !be_app, <- !pow256.
+  pose proof (be_bound _ Hm). pose proof (be_bound _ Hc).
+  set (C := 256 ^ N.of_nat (length c)) in *. set (M := 256 ^ N.of_nat (length m)) in *.
+  rewrite app_length, Nat2N.inj_add, N.pow_add_r. fold C M.
+  assert (C <> 0) by (unfold C; apply N.pow_nonzero; lia).
+  assert (M <> 0) by (unfold M; apply N.pow_nonzero; lia).
+  replace (be_to_N a * (M * C) + (be_to_N m * C + be_to_N c)) with (be_to_N c + (be_to_N a * M + be_to_N m) * C) by lia.
+  rewrite N.div_add by assumption. rewrite (N.div_small (be_to_N c) C) by assumption.
+  rewrite N.add_0_l, N.add_comm, N.mod_add by assumption. apply N.mod_small. assumption.
+Qed.
+Lemma bits_shift n lo k w : bits n (lo + k) w = bits n lo (w + k) / 2 ^ k.
+Proof.
+  rewrite !bits_div. rewrite N.pow_add_r, <- N.div_div by (apply N.pow_nonzero; lia).
+  set (x := n / 2 ^ lo). rewrite (N.add_comm w k), N.pow_add_r.
+  assert (2 ^ k <> 0) by (apply N.pow_nonzero; lia). assert (2 ^ w <> 0) by (apply N.pow_nonzero; lia).
+  rewrite N.mod_mul_r by assumption.
+  set (y := (x / 2 ^ k) mod 2 ^ w).
+  replace (x mod 2 ^ k + 2 ^ k * y) with (x mod 2 ^ k + y * 2 ^ k) by lia.
+  rewrite N.div_add by assumption.
+  rewrite N.div_small by (apply N.mod_lt; assumption). reflexivity.
+Qed.
+
+Lemma bits_narrow n lo w k : bits n lo w = bits n lo (w + k) mod 2 ^ w.
+Proof.
+  rewrite !bits_div. set (x := n / 2 ^ lo). rewrite N.pow_add_r.
+  assert (2 ^ k <> 0) by (apply N.pow_nonzero; lia). assert (2 ^ w <> 0) by (apply N.pow_nonzero; lia).
+  rewrite N.mod_mul_r by assumption.
+  set (y := (x / 2 ^ w) mod 2 ^ k).
+  replace (x mod 2 ^ w + 2 ^ w * y) with (x mod 2 ^ w + y * 2 ^ w) by lia.
+  rewrite N.mod_add by assumption. rewrite N.mod_mod by assumption. reflexivity.
+Qed.
+
+(* disjoint bit ranges: | is + *)
+Lemma lor_shiftl_add a b k : a < 2 ^ k -> N.lor a (N.shiftl b k) = a + b * 2 ^ k.
+Proof.
+  intros Ha. rewrite N.shiftl_mul_pow2.
+  assert (N.land a (b * 2 ^ k) = 0).
+  { apply N.bits_inj. intros i. rewrite N.land_spec, N.bits_0.
+    destruct (N.lt_ge_cases i k) as [Hi | Hi].
+    - rewrite N.mul_pow2_bits_low by assumption. apply andb_false_r.
+    - destruct (N.eq_dec a 0) as [-> | Hnz]; [rewrite N.bits_0; reflexivity|].
+      rewrite (N.bits_above_log2 a i); [reflexivity|].
+      apply N.log2_lt_pow2 in Ha; lia. }
+  rewrite <- N.lxor_lor by assumption. symmetry. apply N.add_nocarry_lxor. assumption.
+Qed.
+
+Section Fields.
+  Variables b0 b1 b2 b3 b4 b5 b6 b7 b8 b9 b10 b11 b12 b13 b14 b15 : N.
+  Let u := [b0; b1; b2; b3; b4; b5; b6; b7; b8; b9; b10; b11; b12; b13; b14; b15].
+  Hypothesis Hok : bytes_ok u = true.
+  Let n := be_to_N u.
+
+  Ltac ok_sub Hok := 
+    let H := fresh in pose proof Hok as H; cbn [bytes_ok forallb] in H;
+    repeat (apply andb_prop in H; let Hx := fresh in destruct H as [Hx H]);
+    cbn [bytes_ok forallb];
+    repeat match goal with Hb : byte_ok _ = true |- _ => rewrite Hb; clear Hb end; reflexivity.
+
+  Lemma f_tl : bits n 96 32 = be_to_N [b0; b1; b2; b3].
+  Proof. refine (bits_be [] [b0; b1; b2; b3] [b4; b5; b6; b7; b8; b9; b10; b11; b12; b13; b14; b15] _ _); ok_sub Hok. Qed.
+  Lemma f_tm : bits n 80 16 = be_to_N [b4; b5].
+  Proof. refine (bits_be [b0; b1; b2; b3] [b4; b5] [b6; b7; b8; b9; b10; b11; b12; b13; b14; b15] _ _); ok_sub Hok. Qed.
+  Lemma f_th : bits n 64 16 = be_to_N [b6; b7].
+  Proof. refine (bits_be [b0; b1; b2; b3; b4; b5] [b6; b7] [b8; b9; b10; b11; b12; b13; b14; b15] _ _); ok_sub Hok. Qed.
+  Lemma f_b6 : bits n 72 8 = b6.
+  Proof. refine (bits_be [b0; b1; b2; b3; b4; b5] [b6] [b7; b8; b9; b10; b11; b12; b13; b14; b15] _ _); ok_sub Hok. Qed.
+  Lemma f_ms : bits n 80 48 = be_to_N [b0; b1; b2; b3; b4; b5].
+  Proof. refine (bits_be [] [b0; b1; b2; b3; b4; b5] [b6; b7; b8; b9; b10; b11; b12; b13; b14; b15] _ _); ok_sub Hok. Qed.
+  Lemma f_cs : bits n 48 16 = be_to_N [b8; b9].
+  Proof. refine (bits_be [b0; b1; b2; b3; b4; b5; b6; b7] [b8; b9] [b10; b11; b12; b13; b14; b15] _ _); ok_sub Hok. Qed.
+  Lemma f_b9 : bits n 48 8 = b9.
+  Proof. refine (bits_be [b0; b1; b2; b3; b4; b5; b6; b7; b8] [b9] [b10; b11; b12; b13; b14; b15] _ _); ok_sub Hok. Qed.
+  Lemma f_node : bits n 0 48 = be_to_N [b10; b11; b12; b13; b14; b15].
+  Proof. refine (bits_be [b0; b1; b2; b3; b4; b5; b6; b7; b8; b9] [b10; b11; b12; b13; b14; b15] [] _ _); ok_sub Hok. Qed.
+
+  Lemma bound_tl : be_to_N [b0; b1; b2; b3] < 2 ^ 32.
+  Proof. refine (be_bound [b0; b1; b2; b3] _). ok_sub Hok. Qed.
+  Lemma bound_tm : be_to_N [b4; b5] < 2 ^ 16.
+  Proof. refine (be_bound [b4; b5] _). ok_sub Hok. Qed.
+  Lemma bound_th : be_to_N [b6; b7] < 2 ^ 16.
+  Proof. refine (be_bound [b6; b7] _). ok_sub Hok. Qed.
+  Lemma bound_ms : be_to_N [b0; b1; b2; b3; b4; b5] < 2 ^ 48.
+  Proof. refine (be_bound [b0; b1; b2; b3; b4; b5] _). ok_sub Hok. Qed.
+
+  (* 4.2: the version shown is the version field *)
+  Lemma version_spec : version u = spec_version n.
+  Proof.
+    unfold spec_version. change (bits n 76 4) with (bits n (72 + 4) 4).
+    rewrite bits_shift. change (4 + 4) with 8. rewrite f_b6. reflexivity.
+  Qed.
+
+  Lemma time_v1_spec : (version u =? 6) = false -> (version u =? 7) = false ->
+    lib_time u = Z.of_N (spec_time_v1 n).
+  Proof.
+    intros H6 H7. unfold lib_time. rewrite H6, H7. f_equal.
+    change (sub u 0 4) with [b0; b1; b2; b3]. change (sub u 4 6) with [b4; b5]. change (sub u 6 8) with [b6; b7].
+    change 4095 with (N.ones 12). rewrite N.land_ones.
+    pose proof bound_tl. pose proof bound_tm. pose proof bound_th.
+    unfold spec_time_v1.
+    rewrite f_tl, f_tm, (bits_narrow n 64 12 4). change (12 + 4) with 16. rewrite f_th.
+    set (TL := be_to_N [b0; b1; b2; b3]) in *. set (TM := be_to_N [b4; b5]) in *. set (TH := be_to_N [b6; b7]) in *.
+    rewrite (lor_shiftl_add TL TM 32) by assumption.
+    rewrite lor_shiftl_add; [reflexivity|].
+    change (2 ^ 48) with 281474976710656. change (2 ^ 32) with 4294967296 in *. change (2 ^ 16) with 65536 in *. lia.
+  Qed.
+
+  Lemma time_v6_spec : v6_time u = Z.of_N (spec_time_v6 n).
+  Proof.
+    unfold v6_time. f_equal.
+    change (sub u 0 4) with [b0; b1; b2; b3]. change (sub u 4 6) with [b4; b5]. change (sub u 6 8) with [b6; b7].
+    change 4095 with (N.ones 12). rewrite N.land_ones.
+    pose proof bound_tl. pose proof bound_tm. pose proof bound_th.
+    unfold spec_time_v6.
+    rewrite f_tl, f_tm, (bits_narrow n 64 12 4). change (12 + 4) with 16. rewrite f_th.
+    set (TL := be_to_N [b0; b1; b2; b3]) in *. set (TM := be_to_N [b4; b5]) in *. set (TH := be_to_N [b6; b7]) in *.
+    assert (Hlo : TH mod 2 ^ 12 < 2 ^ 12) by (apply N.mod_lt; discriminate).
+    rewrite <- N.lor_assoc. rewrite (N.lor_comm (N.shiftl TM 12)).
+    rewrite (lor_shiftl_add (TH mod 2 ^ 12) TM 12) by assumption.
+    rewrite N.lor_comm. rewrite lor_shiftl_add; [lia|].
+    change (2 ^ 28) with 268435456. change (2 ^ 12) with 4096 in *. change (2 ^ 16) with 65536 in *. lia.
+  Qed.
+
+  Lemma time_v7_spec : (version u =? 6) = false -> (version u =? 7) = true ->
+    lib_time u = (Z.of_N (spec_ms_v7 n) * 10000 + gregorian_offset)%Z.
+  Proof.
+    intros H6 H7. unfold lib_time. rewrite H6, H7.
+    change (sub u 0 8) with [b0; b1; b2; b3; b4; b5; b6; b7]. unfold spec_ms_v7. rewrite f_ms.
+    pose proof bound_ms. pose proof bound_th.
+    change [b0; b1; b2; b3; b4; b5; b6; b7] with ([b0; b1; b2; b3; b4; b5] ++ [b6; b7]). rewrite be_app.
+    cbn [length]. change (256 ^ N.of_nat 2) with 65536. rewrite N.shiftr_div_pow2.
+    change (2 ^ 16) with 65536 in *. change (2 ^ 48) with 281474976710656 in *.
+    set (MS := be_to_N [b0; b1; b2; b3; b4; b5]) in *. set (TH := be_to_N [b6; b7]) in *.
+    replace ((MS * 65536 + TH) / 65536) with MS by lia.
+    change (Z.to_N g1582ns100) with 122192928000000000.
+    rewrite N.mod_small by lia.
+    unfold wrap64, gregorian_offset. lia.
+  Qed.
+End Fields.
+
+Lemma wrap64_small z : (- 9223372036854775808 <= z < 9223372036854775808)%Z -> wrap64 z = z.
+Proof. unfold wrap64. lia. Qed.
+
+Lemma unix_norm_trunc d :
+  unix_norm (Z.quot d 10000000) (Z.rem d 10000000 * 100) = (spec_sec d, spec_nsec d).
+Proof.
+  unfold unix_norm, spec_sec, spec_nsec.
+  f_equal; lia.
+Qed.
+
+Lemma time_utc_string_spec t : (0 <= t < 9223372036854775808)%Z ->
+  time_utc_string t = fmt_datetime_frac7_utc (spec_sec (t - gregorian_offset)) (spec_nsec (t - gregorian_offset)).
+Proof.
+  intros Ht. unfold time_utc_string, lib_unix_time.
+  rewrite wrap64_small by (unfold g1582ns100; lia).
+  change g1582ns100 with gregorian_offset.
+  rewrite unix_norm_trunc. reflexivity.
+Qed.
+(* ================= part 2: what UUIDValue displays ================= *)
+Ltac destruct_uuid u H :=
+  let Hl := fresh "Hl" in let Hok := fresh "Hok" in
+  unfold uuid_ok in H; apply andb_prop in H; destruct H as [Hl Hok];
+  do 16 (destruct u as [| ?b u]; [discriminate Hl|]);
+  destruct u; [clear Hl | discriminate Hl].
+
+Lemma bits_lt n lo w : bits n lo w < 2 ^ w.
+Proof. rewrite bits_div. apply N.mod_lt. apply N.pow_nonzero. lia. Qed.
+
+Lemma version_ok u : uuid_ok u = true -> version u = spec_version (be_to_N u).
+Proof. intros H. destruct_uuid u H. eapply version_spec; eassumption. Qed.
+
+Lemma lib_time_v1 u : uuid_ok u = true -> (version u =? 6) = false -> (version u =? 7) = false ->
+  lib_time u = Z.of_N (spec_time_v1 (be_to_N u)).
+Proof. intros H. destruct_uuid u H. eapply time_v1_spec; eassumption. Qed.
+Lemma v6_time_ok u : uuid_ok u = true -> v6_time u = Z.of_N (spec_time_v6 (be_to_N u)).
+Proof. intros H. destruct_uuid u H. eapply time_v6_spec; eassumption. Qed.
+Lemma lib_time_v7 u : uuid_ok u = true -> (version u =? 6) = false -> (version u =? 7) = true ->
+  lib_time u = (Z.of_N (spec_ms_v7 (be_to_N u)) * 10000 + gregorian_offset)%Z.
+Proof. intros H. destruct_uuid u H. eapply time_v7_spec; eassumption. Qed.
+
+Lemma spec_time_v1_lt n : spec_time_v1 n < 2 ^ 60.
+Proof.
+  unfold spec_time_v1. pose proof (bits_lt n 96 32). pose proof (bits_lt n 80 16). pose proof (bits_lt n 64 12).
+  change (2 ^ 60) with 1152921504606846976. change (2 ^ 48) with 281474976710656.
+  change (2 ^ 32) with 4294967296 in *. change (2 ^ 16) with 65536 in *. change (2 ^ 12) with 4096 in *. lia.
+Qed.
+Lemma spec_time_v6_lt n : spec_time_v6 n < 2 ^ 60.
+Proof.
+  unfold spec_time_v6. pose proof (bits_lt n 96 32). pose proof (bits_lt n 80 16). pose proof (bits_lt n 64 12).
+  change (2 ^ 60) with 1152921504606846976. change (2 ^ 28) with 268435456.
+  change (2 ^ 32) with 4294967296 in *. change (2 ^ 16) with 65536 in *. change (2 ^ 12) with 4096 in *. lia.
+Qed.
+Lemma spec_ms_v7_lt n : spec_ms_v7 n < 2 ^ 48.
+Proof. apply bits_lt. Qed.
+
+(* the switch of UUIDValue, branch by branch *)
+Lemma describe_v1 c u : version u = 1 ->
+  describe_gen c u = leaf (bs "UUID v1 (Gregorian time)") [a_node u; a_raw (lib_time u); a_utc (lib_time u); a_clock u].
+Proof. intros H. unfold describe_gen. rewrite H. reflexivity. Qed.
+Lemma describe_v2 c u : version u = 2 ->
+  describe_gen c u = leaf (bs "UUID v2 (DCE)")
+    [(bs "Domain", domain_string (dce_domain u)); (bs "Id", dec_of_N (dce_id u)); a_node u;
+     a_raw (lib_time u); a_utc (lib_time u); a_clock u].
+Proof. intros H. unfold describe_gen. rewrite H. reflexivity. Qed.
+Lemma describe_v6 u : version u = 6 ->
+  describe u = leaf (bs "UUID v6 (reordered Gregorian time)") [a_raw (v6_time u); a_utc (v6_time u)].
+Proof. intros H. unfold describe, describe_gen. rewrite H. reflexivity. Qed.
+Lemma describe_v7 c u : version u = 7 ->
+  describe_gen c u = leaf (bs "UUID v7 (Unix epoch time)") [a_raw (lib_time u); a_utc (lib_time u)].
+Proof. intros H. unfold describe_gen. rewrite H. reflexivity. Qed.
+
+Lemma some_inj {A} (x y : A) : Some x = Some y -> x = y.
+Proof. intros H. inversion H. reflexivity. Qed.
+
+(* C17_time *)
+Theorem time_shown : forall u d, uuid_ok u = true -> spec_unix100 (be_to_N u) = Some d ->
+  shown "Time (UTC)" (describe u) = Some (fmt_datetime_frac7_utc (spec_sec d) (spec_nsec d)).
+Proof.
+  intros u d Hu Hd. pose proof (version_ok u Hu) as Hv. unfold spec_unix100 in Hd. rewrite <- Hv in Hd.
+  destruct (version u =? 1) eqn:E1; [| destruct (version u =? 6) eqn:E6; [| destruct (version u =? 7) eqn:E7; [| discriminate]]].
+  - apply N.eqb_eq in E1. apply some_inj in Hd; subst d. unfold describe. rewrite describe_v1 by assumption.
+    change (shown "Time (UTC)" _) with (Some (time_utc_string (lib_time u))).
+    rewrite lib_time_v1 by (try assumption; rewrite E1; reflexivity).
+    pose proof (spec_time_v1_lt (be_to_N u)). change (2 ^ 60) with 1152921504606846976 in *.
+    rewrite time_utc_string_spec by lia. reflexivity.
+  - apply N.eqb_eq in E6. apply some_inj in Hd; subst d. rewrite describe_v6 by assumption.
+    change (shown "Time (UTC)" _) with (Some (time_utc_string (v6_time u))).
+    rewrite v6_time_ok by assumption.
+    pose proof (spec_time_v6_lt (be_to_N u)). change (2 ^ 60) with 1152921504606846976 in *.
+    rewrite time_utc_string_spec by lia. reflexivity.
+  - apply some_inj in Hd; subst d. unfold describe. rewrite describe_v7 by (apply N.eqb_eq; assumption).
+    change (shown "Time (UTC)" _) with (Some (time_utc_string (lib_time u))).
+    rewrite lib_time_v7 by assumption.
+    pose proof (spec_ms_v7_lt (be_to_N u)). change (2 ^ 48) with 281474976710656 in *.
+    rewrite time_utc_string_spec by (unfold gregorian_offset; lia).
+    replace (Z.of_N (spec_ms_v7 (be_to_N u)) * 10000 + gregorian_offset - gregorian_offset)%Z
+      with (Z.of_N (spec_ms_v7 (be_to_N u)) * 10000)%Z by lia.
+    reflexivity.
+Qed.
+
+(* "Time (raw)" of versions 1 and 6 is the 60-bit timestamp *)
+Theorem raw_shown : forall u, uuid_ok u = true ->
+  (spec_version (be_to_N u) = 1 -> shown "Time (raw)" (describe u) = Some (dec_of_Z (Z.of_N (spec_time_v1 (be_to_N u))))) /\
+  (spec_version (be_to_N u) = 6 -> shown "Time (raw)" (describe u) = Some (dec_of_Z (Z.of_N (spec_time_v6 (be_to_N u))))).
+Proof.
+  intros u Hu. rewrite <- (version_ok u Hu). split; intros Hv.
+  - unfold describe. rewrite describe_v1 by assumption.
+    change (shown "Time (raw)" _) with (Some (dec_of_Z (lib_time u))).
+    rewrite lib_time_v1 by (try assumption; rewrite Hv; reflexivity). reflexivity.
+  - rewrite describe_v6 by assumption.
+    change (shown "Time (raw)" _) with (Some (dec_of_Z (v6_time u))).
+    rewrite v6_time_ok by assumption. reflexivity.
+Qed.
+
+(* ---------- node, clock sequence, DCE domain and identifier ---------- *)
+Lemma N_to_be_app : forall w n, N_to_be (S w) n = N_to_be w (n / 256) ++ [n mod 256].
+Proof. reflexivity. Qed.
+
+Lemma N_to_be_be : forall l, bytes_ok l = true -> N_to_be (length l) (be_to_N l) = l.
+Proof.
+  intros l. induction l using rev_ind; intros H.
+  - reflexivity.
+  - unfold bytes_ok in H. rewrite forallb_app in H. apply andb_prop in H. destruct H as [Hl Hx].
+    cbn in Hx. rewrite andb_true_r in Hx. unfold byte_ok in Hx.
+    rewrite app_length. cbn [length]. rewrite Nat.add_1_r. rewrite N_to_be_app.
+    rewrite be_app. cbn [length]. change (256 ^ N.of_nat 1) with 256. change (be_to_N [x]) with (0 * 256 + x).
+    assert (x < 256) by lia.
+    replace ((be_to_N l * 256 + (0 * 256 + x)) / 256) with (be_to_N l) by lia.
+    replace ((be_to_N l * 256 + (0 * 256 + x)) mod 256) with x by lia.
+    rewrite IHl by exact Hl. reflexivity.
+Qed.
+
+Lemma fields_ok u : uuid_ok u = true ->
+  let n := be_to_N u in
+  node_id u = N_to_be 6 (spec_node n) /\ clock_sequence u = spec_clock_seq n /\
+  dce_domain u = spec_dce_domain n /\ dce_id u = spec_dce_id n.
+Proof.
+  intros H. destruct_uuid u H. cbv zeta. repeat split.
+  - unfold spec_node. rewrite (f_node _ _ _ _ _ _ _ _ _ _ _ _ _ _ _ _ Hok).
+    change (node_id _) with [b9; b10; b11; b12; b13; b14].
+    symmetry. apply (N_to_be_be [b9; b10; b11; b12; b13; b14]).
+    cbn [bytes_ok forallb] in *. repeat (apply andb_prop in Hok; let Hx := fresh in destruct Hok as [Hx Hok]).
+    repeat match goal with Hb : byte_ok _ = true |- _ => rewrite Hb; clear Hb end. reflexivity.
+  - unfold spec_clock_seq, clock_sequence. rewrite (bits_narrow _ 48 14 2). change (14 + 2) with 16.
+    rewrite (f_cs _ _ _ _ _ _ _ _ _ _ _ _ _ _ _ _ Hok). change 16383 with (N.ones 14). rewrite N.land_ones. reflexivity.
+  - unfold spec_dce_domain, spec_octet. change (8 * (15 - 9)) with 48.
+    rewrite (f_b9 _ _ _ _ _ _ _ _ _ _ _ _ _ _ _ _ Hok). reflexivity.
+  - unfold spec_dce_id. rewrite (f_tl _ _ _ _ _ _ _ _ _ _ _ _ _ _ _ _ Hok). reflexivity.
+Qed.
+
+Lemma domain_string_spec d : domain_string d = spec_domain_name d.
+Proof. reflexivity. Qed.
+
+(* C17_fields *)
+Theorem fields_shown : forall u, uuid_ok u = true ->
+  let n := be_to_N u in
+  (spec_version n = 1 ->
+     shown "Node id" (describe u) = Some (hex_of false (N_to_be 6 (spec_node n))) /\
+     shown "Clock sequence" (describe u) = Some (dec_of_N (spec_clock_seq n))) /\
+  (spec_version n = 2 ->
+     shown "Domain" (describe u) = Some (spec_domain_name (spec_dce_domain n)) /\
+     shown "Id" (describe u) = Some (dec_of_N (spec_dce_id n)) /\
+     shown "Node id" (describe u) = Some (hex_of false (N_to_be 6 (spec_node n)))).
+Proof.
+  intros u Hu. cbv zeta. pose proof (fields_ok u Hu) as F. cbv zeta in F. destruct F as (Hn & Hc & Hd & Hi).
+  rewrite <- (version_ok u Hu). split; intros Hv; unfold describe.
+  - rewrite describe_v1 by assumption. split.
+    + change (shown "Node id" _) with (Some (hex_of false (node_id u))). rewrite Hn. reflexivity.
+    + change (shown "Clock sequence" _) with (Some (dec_of_N (clock_sequence u))). rewrite Hc. reflexivity.
+  - rewrite describe_v2 by assumption. repeat split.
+    + change (shown "Domain" _) with (Some (domain_string (dce_domain u))). rewrite Hd. reflexivity.
+    + change (shown "Id" _) with (Some (dec_of_N (dce_id u))). rewrite Hi. reflexivity.
+    + change (shown "Node id" _) with (Some (hex_of false (node_id u))). rewrite Hn. reflexivity.
+Qed.
+
+(* ---------- Nil and Max ---------- *)
+Definition byte_range : list N := map N.of_nat (seq 0 256).
+Lemma byte_range_all b : b < 256 -> In b byte_range.
+Proof.
+  intros H. unfold byte_range. apply in_map_iff. exists (N.to_nat b). split; [lia|].
+  apply in_seq. lia.
+Qed.
+Lemma hexpair_nil : forall b, byte_ok b = true ->
+  (hex_digit false (b / 16) =? 48) && (hex_digit false (b mod 16) =? 48) = (b =? 0).
+Proof.
+  assert (H : forallb (fun b => Bool.eqb ((hex_digit false (b / 16) =? 48) && (hex_digit false (b mod 16) =? 48)) (b =? 0)) byte_range = true)
+    by (vm_compute; reflexivity).
+  intros b Hb. rewrite forallb_forall in H. apply eqb_prop. apply H. apply byte_range_all. unfold byte_ok in Hb. lia.
+Qed.
+Lemma hexpair_max : forall b, byte_ok b = true ->
+  (hex_digit false (b / 16) =? 102) && (hex_digit false (b mod 16) =? 102) = (b =? 255).
+Proof.
+  assert (H : forallb (fun b => Bool.eqb ((hex_digit false (b / 16) =? 102) && (hex_digit false (b mod 16) =? 102)) (b =? 255)) byte_range = true)
+    by (vm_compute; reflexivity).
+  intros b Hb. rewrite forallb_forall in H. apply eqb_prop. apply H. apply byte_range_all. unfold byte_ok in Hb. lia.
+Qed.
+
+Lemma pair_nil b X : byte_ok b = true ->
+  (hex_digit false (b / 16) =? 48) && ((hex_digit false (b mod 16) =? 48) && X) = (b =? 0) && X.
+Proof. intros H. rewrite andb_assoc, hexpair_nil by assumption. reflexivity. Qed.
+Lemma pair_max b X : byte_ok b = true ->
+  (hex_digit false (b / 16) =? 102) && ((hex_digit false (b mod 16) =? 102) && X) = (b =? 255) && X.
+Proof. intros H. rewrite andb_assoc, hexpair_max by assumption. reflexivity. Qed.
+
+Lemma canon_nil_eq u : uuid_ok u = true -> bytes_eqb (canon u) (canon nil_uuid) = bytes_eqb u nil_uuid.
+Proof.
+  intros H. destruct_uuid u H.
+  cbn [bytes_ok forallb] in Hok. repeat (apply andb_prop in Hok; let Hx := fresh in destruct Hok as [Hx Hok]).
+  change (canon nil_uuid) with (repeat 48 8 ++ [45] ++ repeat 48 4 ++ [45] ++ repeat 48 4 ++ [45] ++ repeat 48 4 ++ [45] ++ repeat 48 12).
+  cbn [canon hex_of flat_map hex_byte app take drop bytes_eqb nil_uuid repeat].
+  change (hyphen =? 45) with true. cbn [andb].
+  rewrite !pair_nil by assumption. reflexivity.
+Qed.
+Lemma canon_max_eq u : uuid_ok u = true -> bytes_eqb (canon u) (canon max_uuid) = bytes_eqb u max_uuid.
+Proof.
+  intros H. destruct_uuid u H.
+  cbn [bytes_ok forallb] in Hok. repeat (apply andb_prop in Hok; let Hx := fresh in destruct Hok as [Hx Hok]).
+  change (canon max_uuid) with (repeat 102 8 ++ [45] ++ repeat 102 4 ++ [45] ++ repeat 102 4 ++ [45] ++ repeat 102 4 ++ [45] ++ repeat 102 12).
+  cbn [canon hex_of flat_map hex_byte app take drop bytes_eqb max_uuid repeat].
+  change (hyphen =? 45) with true. cbn [andb].
+  rewrite !pair_max by assumption. reflexivity.
+Qed.
+
+Lemma be_cons a l : be_to_N (a :: l) = a * 256 ^ N.of_nat (length l) + be_to_N l.
+Proof. change (a :: l) with ([a] ++ l). rewrite be_app. change (be_to_N [a]) with (0 * 256 + a). lia. Qed.
+
+Lemma eqb_zeros : forall l, bytes_eqb l (repeat 0 (length l)) = (be_to_N l =? 0).
+Proof.
+  induction l.
+  - reflexivity.
+  - cbn [length repeat bytes_eqb]. rewrite IHl, be_cons.
+    assert (256 ^ N.of_nat (length l) <> 0) by (apply N.pow_nonzero; lia).
+    destruct (a =? 0) eqn:Ea; destruct (be_to_N l =? 0) eqn:El; cbn [andb]; symmetry.
+    + apply N.eqb_eq. apply N.eqb_eq in Ea, El. rewrite Ea, El. lia.
+    + apply N.eqb_neq. apply N.eqb_eq in Ea. apply N.eqb_neq in El. rewrite Ea. lia.
+    + apply N.eqb_neq. apply N.eqb_neq in Ea. nia.
+    + apply N.eqb_neq. apply N.eqb_neq in Ea. nia.
+Qed.
+Lemma eqb_ffs : forall l, bytes_ok l = true ->
+  bytes_eqb l (repeat 255 (length l)) = (be_to_N l =? 256 ^ N.of_nat (length l) - 1).
+Proof.
+  induction l; intros Hok.
+  - reflexivity.
+  - cbn [bytes_ok forallb] in Hok. apply andb_prop in Hok. destruct Hok as [Ha Hl]. unfold byte_ok in Ha.
+    cbn [length repeat bytes_eqb]. rewrite (IHl Hl), be_cons. pose proof (be_bound l Hl) as Hb.
+    rewrite Nat2N.inj_succ, N.pow_succ_r'.
+    set (P := 256 ^ N.of_nat (length l)) in *. set (r := be_to_N l) in *.
+    assert (a < 256) by lia.
+    destruct (a =? 255) eqn:Ea; destruct (r =? P - 1) eqn:El; cbn [andb]; symmetry.
+    + apply N.eqb_eq. apply N.eqb_eq in Ea, El. nia.
+    + apply N.eqb_neq. apply N.eqb_eq in Ea. apply N.eqb_neq in El. nia.
+    + apply N.eqb_neq. apply N.eqb_neq in Ea. nia.
+    + apply N.eqb_neq. apply N.eqb_neq in Ea. nia.
+Qed.
+
+Lemma nil_test u : uuid_ok u = true -> bytes_eqb (canon u) (canon nil_uuid) = (be_to_N u =? spec_nil).
+Proof.
+  intros H. rewrite canon_nil_eq by assumption. unfold uuid_ok in H. apply andb_prop in H. destruct H as [Hl _].
+  apply Nat.eqb_eq in Hl. unfold nil_uuid. rewrite <- Hl. apply eqb_zeros.
+Qed.
+Lemma max_test u : uuid_ok u = true -> bytes_eqb (canon u) (canon max_uuid) = (be_to_N u =? spec_max).
+Proof.
+  intros H. rewrite canon_max_eq by assumption. unfold uuid_ok in H. apply andb_prop in H. destruct H as [Hl Hok].
+  apply Nat.eqb_eq in Hl. unfold max_uuid. rewrite <- Hl. rewrite eqb_ffs by assumption. rewrite Hl. reflexivity.
+Qed.
+
+(* ---------- description: version, Nil, Max ---------- *)
+Lemma describe_v0 c u : version u = 0 ->
+  describe_gen c u = if bytes_eqb (canon u) (canon nil_uuid) then leaf (bs "UUID (Nil UUID)") [] else leaf (bs "UUID (unknown type)") [].
+Proof. intros H. unfold describe_gen. rewrite H. reflexivity. Qed.
+Lemma describe_v15 u : version u = 15 ->
+  describe u = if bytes_eqb (canon u) (canon max_uuid) then leaf (bs "UUID (Max UUID)") [] else leaf (bs "UUID (unknown type)") [].
+Proof. intros H. unfold describe, describe_gen. rewrite H. reflexivity. Qed.
+
+(* C17_version (exact form) *)
+Theorem description_shown : forall u, uuid_ok u = true -> i_desc (describe u) = spec_description (be_to_N u).
+Proof.
+  intros u Hu. pose proof (version_ok u Hu) as Hv. pose proof (nil_test u Hu) as Hn. pose proof (max_test u Hu) as Hm.
+  unfold spec_description.
+  destruct (be_to_N u =? spec_nil) eqn:En.
+  - apply N.eqb_eq in En. assert (H0 : version u = 0) by (rewrite Hv, En; reflexivity).
+    unfold describe. rewrite describe_v0 by assumption. rewrite Hn. reflexivity.
+  - destruct (be_to_N u =? spec_max) eqn:Em.
+    + apply N.eqb_eq in Em. assert (H15 : version u = 15) by (rewrite Hv, Em; vm_compute; reflexivity).
+      rewrite describe_v15 by assumption. rewrite Hm. reflexivity.
+    + rewrite <- Hv. unfold describe, describe_gen. cbv zeta. rewrite Hn, Hm.
+      destruct (version u =? 0) eqn:E0. { apply N.eqb_eq in E0. rewrite E0. reflexivity. }
+      destruct (version u =? 1) eqn:E1. { apply N.eqb_eq in E1. rewrite E1. reflexivity. }
+      destruct (version u =? 2) eqn:E2. { apply N.eqb_eq in E2. rewrite E2. reflexivity. }
+      destruct (version u =? 3) eqn:E3. { apply N.eqb_eq in E3. rewrite E3. reflexivity. }
+      destruct (version u =? 4) eqn:E4. { apply N.eqb_eq in E4. rewrite E4. reflexivity. }
+      destruct (version u =? 5) eqn:E5. { apply N.eqb_eq in E5. rewrite E5. reflexivity. }
+      destruct (version u =? 6) eqn:E6. { apply N.eqb_eq in E6. rewrite E6. reflexivity. }
+      destruct (version u =? 7) eqn:E7. { apply N.eqb_eq in E7. rewrite E7. reflexivity. }
+      destruct (version u =? 8) eqn:E8. { apply N.eqb_eq in E8. rewrite E8. reflexivity. }
+      unfold version_name. rewrite E1, E2, E3, E4, E5, E6, E7, E8.
+      destruct (version u =? 15); reflexivity.
+Qed.
+
+Lemma spec_version_lt n : spec_version n < 16.
+Proof. apply (bits_lt n 76 4). Qed.
+
+(* the version number claimed is the version field, for the versions RFC 9562 defines; no version is
+   claimed otherwise *)
+Theorem version_shown : forall u, uuid_ok u = true ->
+  let v := spec_version (be_to_N u) in
+  shown_version (i_desc (describe u)) = if (1 <=? v) && (v <=? 8) then Some v else None.
+Proof.
+  intros u Hu. cbv zeta. rewrite description_shown by assumption. unfold spec_description.
+  destruct (be_to_N u =? spec_nil) eqn:En.
+  - apply N.eqb_eq in En. rewrite En. reflexivity.
+  - destruct (be_to_N u =? spec_max) eqn:Em.
+    + apply N.eqb_eq in Em. rewrite Em. vm_compute. reflexivity.
+    + set (v := spec_version (be_to_N u)). unfold version_name.
+      destruct (v =? 1) eqn:E1. { apply N.eqb_eq in E1. rewrite E1. reflexivity. }
+      destruct (v =? 2) eqn:E2. { apply N.eqb_eq in E2. rewrite E2. reflexivity. }
+      destruct (v =? 3) eqn:E3. { apply N.eqb_eq in E3. rewrite E3. reflexivity. }
+      destruct (v =? 4) eqn:E4. { apply N.eqb_eq in E4. rewrite E4. reflexivity. }
+      destruct (v =? 5) eqn:E5. { apply N.eqb_eq in E5. rewrite E5. reflexivity. }
+      destruct (v =? 6) eqn:E6. { apply N.eqb_eq in E6. rewrite E6. reflexivity. }
+      destruct (v =? 7) eqn:E7. { apply N.eqb_eq in E7. rewrite E7. reflexivity. }
+      destruct (v =? 8) eqn:E8. { apply N.eqb_eq in E8. rewrite E8. reflexivity. }
+      replace ((1 <=? v) && (v <=? 8)) with false; [reflexivity|].
+      symmetry. apply andb_false_iff. apply N.eqb_neq in E1, E2, E3, E4, E5, E6, E7, E8.
+      destruct (N.le_gt_cases v 8) as [Hle | Hgt]; [left | right]; [apply N.leb_gt | apply N.leb_gt]; lia.
+Qed.
+
+Lemma version_name_not_nil_max v :
+  version_name v <> bs "UUID (Nil UUID)" /\ version_name v <> bs "UUID (Max UUID)".
+Proof. unfold version_name. repeat match goal with |- context [if ?c then _ else _] => destruct c end; split; discriminate. Qed.
+
+(* C17_nil_max *)
+Theorem nil_max_shown :
+  i_desc (describe nil_uuid) = bs "UUID (Nil UUID)" /\ i_desc (describe max_uuid) = bs "UUID (Max UUID)" /\
+  forall u, uuid_ok u = true ->
+    (i_desc (describe u) = bs "UUID (Nil UUID)" <-> be_to_N u = spec_nil) /\
+    (i_desc (describe u) = bs "UUID (Max UUID)" <-> be_to_N u = spec_max).
+Proof.
+  split; [vm_compute; reflexivity|]. split; [vm_compute; reflexivity|].
+  intros u Hu. rewrite description_shown by assumption. unfold spec_description.
+  destruct (version_name_not_nil_max (spec_version (be_to_N u))) as [Hnn Hnm].
+  destruct (be_to_N u =? spec_nil) eqn:En; [apply N.eqb_eq in En | apply N.eqb_neq in En].
+  - split; split; intros H; try reflexivity; try assumption; try discriminate.
+    rewrite En in H. discriminate.
+  - destruct (be_to_N u =? spec_max) eqn:Em; [apply N.eqb_eq in Em | apply N.eqb_neq in Em].
+    + split; split; intros H; try reflexivity; try assumption; try discriminate. contradiction.
+    + split; split; intros H; try contradiction.
+Qed.
+
+(* ================= part 3: textual forms and white space ================= *)
+Ltac case_ifs := repeat match goal with |- context [if ?c then _ else _] =>
+  lazymatch c with context [if _ then _ else _] => fail | _ => destruct c eqn:? end end.
+
+Lemma xval_lower c : xval (to_lower_ascii c) = xval c.
+Proof. unfold xval, to_lower_ascii. case_ifs; lia. Qed.
+
+Lemma xval_hex_digit d : d < 16 -> xval (hex_digit false d) = d.
+Proof. intros H. unfold xval, hex_digit. case_ifs; lia. Qed.
+
+Lemma xval_inv c : xval c <> 255 -> xval c < 16 /\ to_lower_ascii c = hex_digit false (xval c).
+Proof. unfold xval, to_lower_ascii, hex_digit. case_ifs; lia. Qed.
+
+Lemma xtob_lower c1 c2 b : byte_ok b = true ->
+  to_lower_ascii c1 = hex_digit false (b / 16) -> to_lower_ascii c2 = hex_digit false (b mod 16) ->
+  xtob c1 c2 = Some b.
+Proof.
+  intros Hb H1 H2. unfold byte_ok in Hb. unfold xtob.
+  rewrite <- (xval_lower c1), <- (xval_lower c2), H1, H2.
+  rewrite !xval_hex_digit by lia.
+  replace (b / 16 =? 255) with false by lia. replace (b mod 16 =? 255) with false by lia.
+  cbn [orb]. f_equal. lia.
+Qed.
+
+Lemma xtob_inv c1 c2 b : xtob c1 c2 = Some b ->
+  byte_ok b = true /\ to_lower_ascii c1 = hex_digit false (b / 16) /\ to_lower_ascii c2 = hex_digit false (b mod 16).
+Proof.
+  unfold xtob. destruct (xval c1 =? 255) eqn:E1; [discriminate|]. destruct (xval c2 =? 255) eqn:E2; [discriminate|].
+  cbn [orb]. intros H. apply some_inj in H. apply N.eqb_neq in E1, E2.
+  destruct (xval_inv c1 E1) as [L1 T1]. destruct (xval_inv c2 E2) as [L2 T2].
+  subst b. unfold byte_ok.
+  replace ((xval c1 * 16 + xval c2) / 16) with (xval c1) by lia.
+  replace ((xval c1 * 16 + xval c2) mod 16) with (xval c2) by lia.
+  repeat split; try assumption. lia.
+Qed.
+
+Lemma hex_decode_of : forall u t, bytes_ok u = true -> map to_lower_ascii t = hex_of false u -> hex_decode t = Some u.
+Proof.
+  induction u as [| b u IH]; intros t Hok Hm.
+  - destruct t; [reflexivity | discriminate].
+  - cbn [bytes_ok forallb] in Hok. apply andb_prop in Hok. destruct Hok as [Hb Hu].
+    cbn [hex_of flat_map hex_byte app] in Hm.
+    destruct t as [| c1 [| c2 t]]; try discriminate.
+    cbn [map] in Hm. injection Hm as H1 H2 Hm.
+    cbn [hex_decode]. rewrite (xtob_lower c1 c2 b Hb H1 H2). rewrite (IH t Hu Hm). reflexivity.
+Qed.
+
+Lemma hex_decode_inv : forall u t, hex_decode t = Some u ->
+  bytes_ok u = true /\ map to_lower_ascii t = hex_of false u /\ length t = (2 * length u)%nat.
+Proof.
+  induction u as [| b u IH]; intros t H.
+  - destruct t as [| c1 [| c2 t]]; cbn [hex_decode] in H.
+    + repeat split.
+    + discriminate.
+    + destruct (xtob c1 c2); [destruct (hex_decode t)|]; discriminate.
+  - destruct t as [| c1 [| c2 t]]; cbn [hex_decode] in H; try discriminate.
+    destruct (xtob c1 c2) as [b'|] eqn:Ex; [|discriminate].
+    destruct (hex_decode t) as [l|] eqn:Et; [|discriminate].
+    apply some_inj in H. injection H as -> ->.
+    destruct (xtob_inv _ _ _ Ex) as (Hb & H1 & H2). destruct (IH t Et) as (Hu & Hm & Hl).
+    repeat split.
+    + cbn [bytes_ok forallb]. rewrite Hb. exact Hu.
+    + cbn [map hex_of flat_map hex_byte app]. rewrite H1, H2. f_equal. f_equal. exact Hm.
+    + cbn [length]. lia.
+Qed.
+
+Lemma lower_fix c d : to_lower_ascii c = d -> (d <? 97) || (122 <? d) = true -> c = d.
+Proof. unfold to_lower_ascii. case_ifs; lia. Qed.
+
+Ltac invert_map H :=
+  repeat match type of H with
+  | map _ ?t = _ :: _ =>
+      destruct t as [| ?c t]; [discriminate H|]; cbn [map] in H;
+      let E := fresh "E" in injection H as E H
+  | map _ ?t = [] => destruct t; [clear H | discriminate H]
+  end.
+Ltac rewrite_lowers :=
+  repeat match goal with E : to_lower_ascii _ = _ |- _ => rewrite E; clear E end.
+
+(* the tail of Parse on a canonical text in any letter case, whatever follows it *)
+Lemma parse36_canon u t rest : uuid_ok u = true -> map to_lower_ascii t = canon u -> parse36 (t ++ rest) = Ok u.
+Proof.
+  intros H Hm. destruct_uuid u H.
+  cbn [canon hex_of flat_map hex_byte app take drop] in Hm.
+  invert_map Hm.
+  apply lower_fix in E7; [| reflexivity]. apply lower_fix in E12; [| reflexivity].
+  apply lower_fix in E17; [| reflexivity]. apply lower_fix in E22; [| reflexivity]. subst.
+  unfold parse36, dehyphen. cbn [app nth take drop]. rewrite !N.eqb_refl. cbn [andb].
+  rewrite (hex_decode_of _ _ Hok); [reflexivity|].
+  cbn [map hex_of flat_map hex_byte app]. rewrite_lowers. reflexivity.
+Qed.
+
+Lemma take_app_exact {A} (p q : list A) : take (length p) (p ++ q) = p.
+Proof. induction p; cbn; [destruct q; reflexivity | f_equal; assumption]. Qed.
+Lemma drop_app_exact {A} (p q : list A) : drop (length p) (p ++ q) = q.
+Proof. induction p; cbn; [reflexivity | assumption]. Qed.
+
+Lemma form_length u f : uuid_ok u = true ->
+  length (form f u) = match f with Canonical => 36 | Braced => 38 | Urn => 45 | Bare => 32 end%nat.
+Proof. intros H. destruct_uuid u H. destruct f; reflexivity. Qed.
+
+Definition brace_check (s : bytes) : bool :=
+  Nat.eqb (length s) 38 && negb ((nth 0 s 0 =? 123) && (nth 37 s 0 =? 125)).
+
+Lemma accept_form u f t : uuid_ok u = true -> same_up_to_case t (form f u) ->
+  brace_check t = false /\ parse t = Ok u.
+Proof.
+  intros Hu Hm. unfold same_up_to_case in Hm.
+  assert (Hlen : length t = length (form f u)) by (rewrite <- Hm; symmetry; apply map_length).
+  rewrite (form_length u f Hu) in Hlen. unfold brace_check, parse. rewrite Hlen.
+  destruct f; cbn [form] in Hm; cbn [Nat.eqb andb].
+  - split; [reflexivity|]. rewrite <- (app_nil_r t). apply parse36_canon; assumption.
+  - destruct t as [| c0 t]; [discriminate|]. cbn [map app] in Hm. injection Hm as E0 Hm.
+    apply map_eq_app in Hm. destruct Hm as (t36 & r & -> & H36 & Hr).
+    destruct r as [| c37 [| ? ?]]; try discriminate. cbn [map] in Hr. injection Hr as E37.
+    apply lower_fix in E0; [| reflexivity]. apply lower_fix in E37; [| reflexivity]. subst c0 c37.
+    assert (L36 : length t36 = 36%nat).
+    { rewrite <- (map_length to_lower_ascii), H36. apply (form_length u Canonical Hu). }
+    split.
+    + cbn [nth]. change 37%nat with (S 36). cbn [nth]. rewrite app_nth2 by lia. rewrite L36. reflexivity.
+    + cbn [drop]. apply parse36_canon; assumption.
+  - apply map_eq_app in Hm. destruct Hm as (p & t36 & -> & Hp & H36).
+    assert (Lp : length p = 9%nat) by (rewrite <- (map_length to_lower_ascii), Hp; reflexivity).
+    split; [reflexivity|].
+    replace (take 9 (p ++ t36)) with p by (rewrite <- Lp; symmetry; apply take_app_exact).
+    replace (drop 9 (p ++ t36)) with t36 by (rewrite <- Lp; symmetry; apply drop_app_exact).
+    unfold fold_eq_ascii. rewrite Hp.
+    change (bytes_eqb urn_prefix (map to_lower_ascii urn_prefix)) with true. cbv iota.
+    rewrite <- (app_nil_r t36). apply parse36_canon; assumption.
+  - split; [reflexivity|]. unfold uuid_ok in Hu. apply andb_prop in Hu. destruct Hu as [_ Hok].
+    rewrite (hex_decode_of u t Hok Hm). reflexivity.
+Qed.
+
+(* ---------- strings.TrimSpace removes surrounding white space ---------- *)
+Definition is_ws (c : N) : Prop := In c white_space.
+Definition edge_ok (t : bytes) : bool :=
+  match t with a :: _ => (a <? 128) && negb (is_space_rune a) | [] => false end.
+
+Lemma ws_decode c r : is_ws c ->
+  decode_rune (encode_rune c ++ r) = (true, c, length (encode_rune c)) /\ is_space_rune c = true /\
+  (0 < length (encode_rune c))%nat.
+Proof.
+  intros H. unfold is_ws, white_space in H.
+  repeat (destruct H as [<- | H]; [repeat split; try reflexivity; cbn; lia |]). contradiction.
+Qed.
+Lemma ws_last c r : is_ws c -> last_space (rev (encode_rune c) ++ r) = Some (length (encode_rune c)).
+Proof.
+  intros H. unfold is_ws, white_space in H.
+  repeat (destruct H as [<- | H]; [reflexivity |]). contradiction.
+Qed.
+
+Lemma trim_left_stop fuel t : edge_ok t = true -> trim_left_space fuel t = t.
+Proof.
+  intros H. destruct fuel; [reflexivity|]. destruct t as [| a r]; [discriminate|].
+  cbn [edge_ok] in H. apply andb_prop in H. destruct H as [Ha Hs]. apply negb_true_iff in Hs.
+  cbn [trim_left_space]. unfold decode_rune. rewrite Ha, Hs. reflexivity.
+Qed.
+Lemma trim_right_stop fuel t : edge_ok t = true -> trim_right_space_rev fuel t = t.
+Proof.
+  intros H. destruct fuel; [reflexivity|]. destruct t as [| a r]; [discriminate|].
+  cbn [edge_ok] in H. apply andb_prop in H. destruct H as [Ha Hs]. apply negb_true_iff in Hs.
+  cbn [trim_right_space_rev last_space]. rewrite Ha, Hs. reflexivity.
+Qed.
+
+Lemma trim_left_ws : forall cps rest fuel, Forall is_ws cps -> (length cps <= fuel)%nat -> edge_ok rest = true ->
+  trim_left_space fuel (flat_map encode_rune cps ++ rest) = rest.
+Proof.
+  induction cps as [| a cps IH]; intros rest fuel Hws Hf He.
+  - apply trim_left_stop. assumption.
+  - inversion Hws as [| ? ? Ha Hrest]; subst. cbn [flat_map]. rewrite <- app_assoc.
+    destruct fuel as [| fuel]; [cbn in Hf; lia|]. cbn [length] in Hf.
+    destruct (ws_decode a (flat_map encode_rune cps ++ rest) Ha) as (Hd & Hs & Hl).
+    cbn [trim_left_space].
+    destruct (encode_rune a ++ flat_map encode_rune cps ++ rest) eqn:Es.
+    + apply (f_equal (@length N)) in Es. rewrite app_length in Es. cbn in Es. lia.
+    + rewrite Hd, Hs. rewrite <- Es. rewrite drop_app_exact. apply IH; [assumption | lia | assumption].
+Qed.
+Lemma trim_right_ws : forall cps rest fuel, Forall is_ws cps -> (length cps <= fuel)%nat -> edge_ok rest = true ->
+  trim_right_space_rev fuel (flat_map (fun c => rev (encode_rune c)) cps ++ rest) = rest.
+Proof.
+  induction cps as [| a cps IH]; intros rest fuel Hws Hf He.
+  - apply trim_right_stop. assumption.
+  - inversion Hws as [| ? ? Ha Hrest]; subst. cbn [flat_map]. rewrite <- app_assoc.
+    destruct fuel as [| fuel]; [cbn in Hf; lia|]. cbn [length] in Hf.
+    cbn [trim_right_space_rev]. rewrite (ws_last a _ Ha).
+    rewrite <- (rev_length (encode_rune a)). rewrite drop_app_exact. apply IH; [assumption | lia | assumption].
+Qed.
+
+Lemma rev_flat_map_enc cps : rev (flat_map encode_rune cps) = flat_map (fun c => rev (encode_rune c)) (rev cps).
+Proof.
+  induction cps as [| a cps IH]; [reflexivity|].
+  cbn [flat_map rev]. rewrite rev_app_distr, IH, flat_map_app. cbn [flat_map]. rewrite app_nil_r. reflexivity.
+Qed.
+Lemma ws_len cps : Forall is_ws cps -> (length cps <= length (flat_map encode_rune cps))%nat.
+Proof.
+  induction 1 as [| a cps Ha _ IH]; [cbn; lia|]. cbn [flat_map length]. rewrite app_length.
+  destruct (ws_decode a [] Ha) as (_ & _ & Hl). lia.
+Qed.
+Lemma edge_ok_app t r : edge_ok t = true -> edge_ok (t ++ r) = true.
+Proof. destruct t; [discriminate | trivial]. Qed.
+
+Lemma trim_space_ws cps1 cps2 t : Forall is_ws cps1 -> Forall is_ws cps2 ->
+  edge_ok t = true -> edge_ok (rev t) = true ->
+  trim_space (flat_map encode_rune cps1 ++ t ++ flat_map encode_rune cps2) = t.
+Proof.
+  intros H1 H2 He Hr. unfold trim_space.
+  rewrite trim_left_ws; try assumption.
+  - rewrite rev_app_distr, rev_flat_map_enc. rewrite trim_right_ws.
+    + apply rev_involutive.
+    + apply Forall_rev. assumption.
+    + rewrite rev_length, app_length. pose proof (ws_len cps2 H2). lia.
+    + assumption.
+  - rewrite app_length. pose proof (ws_len cps1 H1). lia.
+  - apply edge_ok_app. assumption.
+Qed.
+
+Lemma lower_edge c d : to_lower_ascii c = d ->
+  ((48 <=? d) && (d <=? 57)) || ((97 <=? d) && (d <=? 125)) = true ->
+  (c <? 128) && negb (is_space_rune c) = true.
+Proof. unfold to_lower_ascii, is_space_rune. case_ifs; lia. Qed.
+Lemma hex_digit_safe x : x < 16 ->
+  ((48 <=? hex_digit false x) && (hex_digit false x <=? 57)) || ((97 <=? hex_digit false x) && (hex_digit false x <=? 125)) = true.
+Proof. intros H. unfold hex_digit. case_ifs; lia. Qed.
+
+Lemma form_edges u f t : uuid_ok u = true -> same_up_to_case t (form f u) ->
+  edge_ok t = true /\ edge_ok (rev t) = true.
+Proof.
+  intros H Hm. unfold same_up_to_case in Hm.
+  assert (Hr : map to_lower_ascii (rev t) = rev (form f u)) by (rewrite map_rev, Hm; reflexivity).
+  destruct_uuid u H.
+  cbn [bytes_ok forallb] in Hok. repeat (apply andb_prop in Hok; let Hx := fresh in destruct Hok as [Hx Hok]).
+  assert (Hd : forall x, byte_ok x = true -> x / 16 < 16 /\ x mod 16 < 16) by (unfold byte_ok; intros; lia).
+  destruct f; cbn [form canon hex_of flat_map hex_byte app take drop rev urn_prefix bs bytes_of_string] in Hm, Hr;
+    (destruct t as [| c0 t']; [discriminate Hm|]); cbn [map] in Hm; injection Hm as E0 _;
+    (destruct (rev (c0 :: t')) as [| z r]; [discriminate Hr|]); cbn [map] in Hr; injection Hr as Ez _;
+    cbn [edge_ok]; split;
+    (eapply lower_edge; [eassumption|]; first [apply hex_digit_safe; apply Hd; assumption | reflexivity]).
+Qed.
+
+(* C17_forms *)
+Theorem forms_accepted : forall u f t cps1 cps2,
+  uuid_ok u = true -> same_up_to_case t (form f u) -> Forall is_ws cps1 -> Forall is_ws cps2 ->
+  let text := flat_map encode_rune cps1 ++ t ++ flat_map encode_rune cps2 in
+  is_uuid text = true /\ uuid_value text = Ok (describe u).
+Proof.
+  intros u f t cps1 cps2 Hu Hm H1 H2 text.
+  destruct (form_edges u f t Hu Hm) as [He Hr].
+  destruct (accept_form u f t Hu Hm) as [Hb Hp].
+  assert (Hpt : parse_text_gen fixed text = Ok u).
+  { unfold parse_text_gen, text. rewrite trim_space_ws by assumption.
+    change (fx_braces fixed) with true. cbn [andb]. fold (brace_check t). rewrite Hb. exact Hp. }
+  unfold is_uuid, is_uuid_gen, uuid_value, uuid_value_gen. rewrite Hpt. split; reflexivity.
+Qed.
+
+(* ---------- only UUID texts are accepted ---------- *)
+Lemma bytes_eqb_eq : forall a b, bytes_eqb a b = true -> a = b.
+Proof.
+  induction a as [| x a IH]; destruct b as [| y b]; cbn [bytes_eqb]; intros H; try discriminate; [reflexivity|].
+  apply andb_prop in H. destruct H as [Hx Hab]. apply N.eqb_eq in Hx. subst y. f_equal. apply IH. assumption.
+Qed.
+
+Lemma parse36_inv s u : (36 <= length s)%nat -> parse36 s = Ok u ->
+  uuid_ok u = true /\ map to_lower_ascii (take 36 s) = canon u.
+Proof.
+  intros HL H.
+  do 36 (destruct s as [| ?c s]; [cbn in HL; lia|]). clear HL.
+  unfold parse36, dehyphen in H. cbn [nth take drop app] in H.
+  destruct (c7 =? hyphen) eqn:E8; [| discriminate H]. destruct (c12 =? hyphen) eqn:E13; [| discriminate H].
+  destruct (c17 =? hyphen) eqn:E18; [| discriminate H]. destruct (c22 =? hyphen) eqn:E23; [| discriminate H].
+  cbn [andb] in H. apply N.eqb_eq in E8, E13, E18, E23. subst c7 c12 c17 c22.
+  match type of H with match hex_decode ?h with _ => _ end = _ => destruct (hex_decode h) as [u'|] eqn:Eh; [| discriminate H] end.
+  assert (u' = u) by congruence. subst u'. clear H.
+  destruct (hex_decode_inv _ _ Eh) as (Hok & Hm & Hlen). cbn [length] in Hlen.
+  split.
+  - unfold uuid_ok. rewrite Hok. replace (length u) with 16%nat by lia. reflexivity.
+  - unfold canon. rewrite <- Hm. reflexivity.
+Qed.
+
+Tactic Notation "explode" ident(t) ident(HL) integer(n) :=
+  do n (destruct t as [| ?c t]; [discriminate HL|]); destruct t; [clear HL | discriminate HL].
+
+(* C17_only_uuids *)
+Theorem only_uuids : forall s, is_uuid s = true ->
+  exists u f, uuid_ok u = true /\ same_up_to_case (trim_space s) (form f u).
+Proof.
+  intros s H. unfold is_uuid, is_uuid_gen, parse_text_gen in H. set (t := trim_space s) in *. clearbody t.
+  change (fx_braces fixed) with true in H. cbn [andb] in H. fold (brace_check t) in H.
+  destruct (brace_check t) eqn:Hb; [discriminate H|].
+  destruct (parse t) as [u | e | e] eqn:Hp; try discriminate H. clear H.
+  unfold parse in Hp. unfold same_up_to_case.
+  destruct (Nat.eqb (length t) 36) eqn:L36.
+  { apply Nat.eqb_eq in L36. destruct (parse36_inv t u) as [Hu Hm]; [lia | assumption |].
+    exists u, Canonical. split; [assumption|]. cbn [form]. rewrite <- Hm. f_equal.
+    explode t L36 36. reflexivity. }
+  destruct (Nat.eqb (length t) 45) eqn:L45.
+  { apply Nat.eqb_eq in L45.
+    destruct (fold_eq_ascii (take 9 t) urn_prefix) eqn:Hf; [| discriminate Hp].
+    explode t L45 45. cbn [drop] in Hp.
+    apply parse36_inv in Hp; [| cbn [length]; lia]. destruct Hp as [Hu Hm]. cbn [take map] in Hm.
+    exists u, Urn. split; [assumption|]. cbn [form]. rewrite <- Hm.
+    unfold fold_eq_ascii in Hf. apply bytes_eqb_eq in Hf. cbn [take map] in Hf.
+    change (map to_lower_ascii urn_prefix) with urn_prefix in Hf.
+    cbn [map]. unfold urn_prefix in *. cbn [bs bytes_of_string] in *.
+    repeat match goal with Hx : _ :: _ = _ :: _ |- _ => let E := fresh "E" in injection Hx as E Hx end.
+    rewrite_lowers. reflexivity. }
+  destruct (Nat.eqb (length t) 38) eqn:L38.
+  { apply Nat.eqb_eq in L38. unfold brace_check in Hb. rewrite L38 in Hb. cbn [Nat.eqb andb] in Hb.
+    apply negb_false_iff in Hb. apply andb_prop in Hb. destruct Hb as [B0 B37].
+    explode t L38 38. cbn [nth] in B0, B37. apply N.eqb_eq in B0, B37. subst.
+    cbn [drop] in Hp.
+    apply parse36_inv in Hp; [| cbn [length]; lia]. destruct Hp as [Hu Hm]. cbn [take map] in Hm.
+    exists u, Braced. split; [assumption|]. cbn [form]. rewrite <- Hm. reflexivity. }
+  destruct (Nat.eqb (length t) 32) eqn:L32; [| discriminate Hp].
+  apply Nat.eqb_eq in L32.
+  destruct (hex_decode t) as [u'|] eqn:Eh; [| discriminate Hp]. assert (u' = u) by congruence. subst u'.
+  destruct (hex_decode_inv _ _ Eh) as (Hok & Hm & Hlen).
+  exists u, Bare. split; [| exact Hm].
+  unfold uuid_ok. rewrite Hok. replace (length u) with 16%nat by lia. reflexivity.
+Qed.
+
+(* ---------- what TrimSpace removes is white space and nothing else ---------- *)
+Lemma decode_rune_inv s r sz : decode_rune s = (true, r, sz) ->
+  exists rest, s = encode_rune r ++ rest /\ sz = length (encode_rune r).
+Proof.
+  unfold decode_rune, encode_rune, is_cont, in_range.
+  destruct s as [| b0 s]; [discriminate|].
+  destruct (b0 <? 128) eqn:E0.
+  { intros H. injection H as <- <-. exists s. rewrite E0. split; reflexivity. }
+  destruct ((194 <=? b0) && (b0 <=? 223)) eqn:E2.
+  { destruct s as [| b1 s]; [discriminate|].
+    destruct ((128 <=? b1) && (b1 <=? 191)) eqn:C1; [| discriminate].
+    intros H. injection H as <- <-. exists s.
+    replace ((b0 - 192) * 64 + (b1 - 128) <? 128) with false by lia.
+    replace ((b0 - 192) * 64 + (b1 - 128) <? 2048) with true by lia.
+    split; [| reflexivity]. cbn [app]. f_equal; [lia|]. f_equal. lia. }
+  destruct ((224 <=? b0) && (b0 <=? 239)) eqn:E3.
+  { destruct s as [| b1 [| b2 s]]; try discriminate.
+    match goal with |- context [if ?c then _ else _] => destruct c eqn:C end; [| discriminate].
+    intros H. apply pair_equal_spec in H. destruct H as [H <-]. apply pair_equal_spec in H. destruct H as [_ <-]. exists s.
+    set (q := (b0 - 224) * 4096 + (b1 - 128) * 64 + (b2 - 128)).
+    assert (Hr : 2048 <= q < 65536 /\ (q < 55296 \/ 57343 < q) /\ b0 = 224 + q / 4096 /\ b1 = 128 + (q / 64) mod 64 /\ b2 = 128 + q mod 64).
+    { unfold q. destruct (b0 =? 224) eqn:A; destruct (b0 =? 237) eqn:B; lia. }
+    clearbody q. destruct Hr as (R1 & R2 & -> & -> & ->).
+    replace (q <? 128) with false by lia. replace (q <? 2048) with false by lia.
+    replace ((55296 <=? q) && (q <=? 57343) || (1114111 <? q)) with false by lia.
+    replace (q <? 65536) with true by lia. split; reflexivity. }
+  destruct ((240 <=? b0) && (b0 <=? 244)) eqn:E4; [| discriminate].
+  destruct s as [| b1 [| b2 [| b3 s]]]; try discriminate.
+  match goal with |- context [if ?c then _ else _] => destruct c eqn:C end; [| discriminate].
+  intros H. apply pair_equal_spec in H. destruct H as [H <-]. apply pair_equal_spec in H. destruct H as [_ <-]. exists s.
+  set (q := (b0 - 240) * 262144 + (b1 - 128) * 4096 + (b2 - 128) * 64 + (b3 - 128)).
+  assert (Hr : 65536 <= q <= 1114111 /\ b0 = 240 + q / 262144 /\ b1 = 128 + (q / 4096) mod 64 /\ b2 = 128 + (q / 64) mod 64 /\ b3 = 128 + q mod 64).
+  { unfold q. destruct (b0 =? 240) eqn:A; destruct (b0 =? 244) eqn:B; lia. }
+  clearbody q. destruct Hr as (R1 & -> & -> & -> & ->).
+  replace (q <? 128) with false by lia. replace (q <? 2048) with false by lia.
+  replace ((55296 <=? q) && (q <=? 57343) || (1114111 <? q)) with false by lia.
+  replace (q <? 65536) with false by lia. split; reflexivity.
+Qed.
+
+Lemma space_is_ws r : is_space_rune r = true -> is_ws r.
+Proof. unfold is_space_rune, is_ws, white_space. cbn [In]. case_ifs; lia. Qed.
+
+Lemma trim_left_inv : forall fuel s, exists cps,
+  Forall is_ws cps /\ s = flat_map encode_rune cps ++ trim_left_space fuel s.
+Proof.
+  induction fuel as [| fuel IH]; intros s.
+  - exists []. split; [constructor | reflexivity].
+  - cbn [trim_left_space]. destruct s as [| b s']; [exists []; split; [constructor | reflexivity]|].
+    set (s := b :: s') in *.
+    destruct (decode_rune s) as [[v r] sz] eqn:Ed. destruct v; [| exists []; split; [constructor | reflexivity]].
+    destruct (is_space_rune r) eqn:Es; [| exists []; split; [constructor | reflexivity]].
+    destruct (decode_rune_inv s r sz Ed) as (rest & Hs & Hsz). rewrite Hs, Hsz, drop_app_exact.
+    destruct (IH rest) as (cps & Hws & Hr). exists (r :: cps). split.
+    + constructor; [apply space_is_ws; assumption | assumption].
+    + cbn [flat_map]. rewrite <- app_assoc. f_equal. exact Hr.
+Qed.
+
+Lemma try_last_inv l sz : try_last l = Some sz ->
+  exists c, is_ws c /\ l = encode_rune c /\ sz = length l.
+Proof.
+  unfold try_last. destruct (decode_rune l) as [[v c] z] eqn:Ed. destruct v; [| discriminate].
+  destruct (Nat.eqb z (length l)) eqn:Ez; [| discriminate]. destruct (is_space_rune c) eqn:Es; [| discriminate].
+  cbn [andb]. intros H. apply some_inj in H. subst sz. apply Nat.eqb_eq in Ez.
+  destruct (decode_rune_inv l c z Ed) as (rest & Hl & Hz).
+  assert (rest = []).
+  { apply (f_equal (@length N)) in Hl. rewrite app_length in Hl. destruct rest; [reflexivity | cbn [length] in Hl; lia]. }
+  subst rest. rewrite app_nil_r in Hl. exists c. repeat split; [apply space_is_ws; assumption | assumption | assumption].
+Qed.
+
+Lemma last_space_inv rs sz : last_space rs = Some sz ->
+  exists c rest, is_ws c /\ rs = rev (encode_rune c) ++ rest /\ sz = length (encode_rune c).
+Proof.
+  unfold last_space. destruct rs as [| b r]; [discriminate|].
+  destruct (b <? 128) eqn:Eb.
+  { destruct (is_space_rune b) eqn:Es; [| discriminate]. intros H. apply some_inj in H. subst sz.
+    exists b, r. unfold encode_rune. rewrite Eb. repeat split. apply space_is_ws. assumption. }
+  destruct r as [| b1 r1]; [discriminate|].
+  destruct (rune_start b1).
+  { intros H. destruct (try_last_inv _ _ H) as (c & Hc & Hl & Hsz). exists c, r1. rewrite <- Hl. repeat split; assumption. }
+  destruct r1 as [| b2 r2]; [discriminate|].
+  destruct (rune_start b2).
+  { intros H. destruct (try_last_inv _ _ H) as (c & Hc & Hl & Hsz). exists c, r2. rewrite <- Hl. repeat split; assumption. }
+  destruct r2 as [| b3 r3]; [discriminate|].
+  destruct (rune_start b3); [| discriminate].
+  intros H. destruct (try_last_inv _ _ H) as (c & Hc & Hl & Hsz). exists c, r3. rewrite <- Hl. repeat split; assumption.
+Qed.
+
+Lemma trim_right_inv : forall fuel rs, exists cps,
+  Forall is_ws cps /\ rs = flat_map (fun c => rev (encode_rune c)) cps ++ trim_right_space_rev fuel rs.
+Proof.
+  induction fuel as [| fuel IH]; intros rs.
+  - exists []. split; [constructor | reflexivity].
+  - cbn [trim_right_space_rev]. destruct (last_space rs) as [sz|] eqn:El; [| exists []; split; [constructor | reflexivity]].
+    destruct (last_space_inv rs sz El) as (c & rest & Hc & Hrs & Hsz).
+    rewrite Hrs, Hsz, <- (rev_length (encode_rune c)), drop_app_exact.
+    destruct (IH rest) as (cps & Hws & Hr). exists (c :: cps). split; [constructor; assumption|].
+    cbn [flat_map]. rewrite <- app_assoc. f_equal. exact Hr.
+Qed.
+
+(* strings.TrimSpace returns its argument without a run of white-space code points at either end *)
+Theorem trim_space_removes_ws : forall s, exists cps1 cps2,
+  Forall is_ws cps1 /\ Forall is_ws cps2 /\
+  s = flat_map encode_rune cps1 ++ trim_space s ++ flat_map encode_rune cps2.
+Proof.
+  intros s. unfold trim_space.
+  destruct (trim_left_inv (length s) s) as (cps1 & H1 & Hs).
+  set (l := trim_left_space (length s) s) in *.
+  destruct (trim_right_inv (length l) (rev l)) as (cps & H2 & Hl).
+  set (m := trim_right_space_rev (length l) (rev l)) in *.
+  exists cps1, (rev cps). split; [assumption|]. split; [apply Forall_rev; assumption|].
+  rewrite Hs at 1. f_equal.
+  rewrite <- (rev_involutive l), Hl, rev_app_distr. f_equal.
+  rewrite <- (rev_involutive cps) at 1. rewrite <- rev_flat_map_enc. apply rev_involutive.
+Qed.
+
+(* the two together: an accepted text is white space, one UUID form in some letter case, white space *)
+Corollary accepted_text_shape : forall s, is_uuid s = true ->
+  exists u f t cps1 cps2, uuid_ok u = true /\ same_up_to_case t (form f u) /\ Forall is_ws cps1 /\ Forall is_ws cps2 /\
+    s = flat_map encode_rune cps1 ++ t ++ flat_map encode_rune cps2.
+Proof.
+  intros s H. destruct (only_uuids s H) as (u & f & Hu & Hm).
+  destruct (trim_space_removes_ws s) as (cps1 & cps2 & H1 & H2 & Hs).
+  exists u, f, (trim_space s), cps1, cps2. repeat split; assumption.
+Qed.
+
+(* ================= witnesses: RFC 9562 test vectors, and the code before the repairs ================= *)
+Definition rfc_v1 : bytes := [194; 50; 171; 0; 148; 20; 17; 236; 179; 200; 158; 107; 222; 206; 216; 70].   (* A.1 *)
+Definition rfc_v6 : bytes := [30; 201; 65; 76; 35; 42; 107; 0; 179; 200; 158; 107; 222; 206; 216; 70].     (* A.5 *)
+Definition rfc_v7 : bytes := [1; 127; 34; 226; 121; 176; 124; 195; 152; 196; 220; 12; 12; 7; 57; 143].     (* A.6 *)
+Definition rfc_v8 : bytes := [36; 137; 233; 173; 46; 226; 142; 0; 142; 201; 50; 213; 246; 145; 129; 192]. (* B.1 *)
+
+Lemma rfc_vectors :
+  uuid_value (bs "C232AB00-9414-11EC-B3C8-9E6BDECED846") =
+    Ok (leaf (bs "UUID v1 (Gregorian time)")
+          [(bs "Node id", bs "9e6bdeced846"); (bs "Time (raw)", bs "138648505420000000");
+           (bs "Time (UTC)", bs "2022-02-22 19:22:22"); (bs "Clock sequence", bs "13256")]) /\
+  uuid_value (bs "1EC9414C-232A-6B00-B3C8-9E6BDECED846") =
+    Ok (leaf (bs "UUID v6 (reordered Gregorian time)")
+          [(bs "Time (raw)", bs "138648505420000000"); (bs "Time (UTC)", bs "2022-02-22 19:22:22")]) /\
+  uuid_value (bs "017F22E2-79B0-7CC3-98C4-DC0C0C07398F") =
+    Ok (leaf (bs "UUID v7 (Unix epoch time)")
+          [(bs "Time (raw)", bs "138648505420000000"); (bs "Time (UTC)", bs "2022-02-22 19:22:22")]) /\
+  uuid_value (bs "5df41881-3aed-3515-88a7-2f4a814cf09e") = Ok (leaf (bs "UUID v3 (MD5)") []) /\
+  uuid_value (bs "919108f7-52d1-4320-9bac-f847db4148a8") = Ok (leaf (bs "UUID v4 (random)") []) /\
+  uuid_value (bs "2ed6657d-e927-568b-95e1-2665a8aea6a2") = Ok (leaf (bs "UUID v5 (SHA1)") []) /\
+  uuid_value (bs "2489E9AD-2EE2-8E00-8EC9-32D5F69181C0") = Ok (leaf (bs "UUID v8 (custom)") []) /\
+  (* the spec side on the same vectors: 2022-02-22T19:22:22Z = 1645557742 *)
+  spec_unix100 (be_to_N rfc_v1) = Some 16455577420000000%Z /\
+  spec_unix100 (be_to_N rfc_v6) = Some 16455577420000000%Z /\
+  spec_unix100 (be_to_N rfc_v7) = Some 16455577420000000%Z /\
+  spec_read_uuid (bs "1EC9414C-232A-6B00-B3C8-9E6BDECED846") = Some (be_to_N rfc_v6).
+Proof. repeat split; vm_compute; reflexivity. Qed.
+
+(* the hypotheses of the theorems are met by ordinary inputs *)
+Example uuid_ok_example : uuid_ok rfc_v6 = true.
+Proof. reflexivity. Qed.
+Example same_up_to_case_example : same_up_to_case (bs "urn:UUID:1Ec9414c-232A-6b00-B3C8-9E6BDECED846") (form Urn rfc_v6).
+Proof. reflexivity. Qed.
+Example is_ws_example : Forall is_ws [32; 9; 10; 13; 133; 160; 8195; 12288].
+Proof.
+  repeat (apply Forall_cons; [unfold is_ws, white_space; cbn [In]; repeat first [left; reflexivity | right] |]).
+  apply Forall_nil.
+Qed.
+
+(* F18: before the repair the library's Time() decided the version 6 time *)
+Lemma time_refuted_legacy : exists u d, uuid_ok u = true /\ spec_unix100 (be_to_N u) = Some d /\
+  shown "Time (UTC)" (describe_gen legacy u) = Some (bs "8612-07-16 21:57:51.9982336") /\
+  fmt_datetime_frac7_utc (spec_sec d) (spec_nsec d) = bs "2022-02-22 19:22:22".
+Proof. exists rfc_v6, 16455577420000000%Z. repeat split; vm_compute; reflexivity. Qed.
+
+(* F19: before the repair the Max UUID was an unknown type *)
+Lemma max_refuted_legacy :
+  i_desc (describe_gen legacy max_uuid) = bs "UUID (unknown type)" /\
+  spec_description (be_to_N max_uuid) = bs "UUID (Max UUID)".
+Proof. split; vm_compute; reflexivity. Qed.
+
+(* F37: before the repair version 8 was an unknown type *)
+Lemma v8_refuted_legacy : uuid_ok rfc_v8 = true /\
+  i_desc (describe_gen legacy rfc_v8) = bs "UUID (unknown type)" /\
+  spec_description (be_to_N rfc_v8) = bs "UUID v8 (custom)".
+Proof. repeat split; vm_compute; reflexivity. Qed.
+
+(* F20: before the repair any two bytes could stand for the braces *)
+Lemma only_uuids_refuted_legacy : exists s, is_uuid_gen legacy s = true /\
+  ~ exists u f, uuid_ok u = true /\ same_up_to_case (trim_space s) (form f u).
+Proof.
+  exists (bs "x1EC9414C-232A-6B00-B3C8-9E6BDECED846y"). split; [vm_compute; reflexivity|].
+  intros (u & f & Hu & Hm). unfold same_up_to_case in Hm.
+  assert (Hl : length (form f u) = 38%nat) by (rewrite <- Hm; vm_compute; reflexivity).
+  rewrite (form_length u f Hu) in Hl. destruct f; try discriminate Hl.
+  cbn [form app] in Hm. vm_compute in Hm. discriminate Hm.
+Qed.
